@@ -38,6 +38,19 @@ def gen(rnd, tier):
             ops.append({"op": "exitalt"})
         ops += [{"op": "write", "s": R.join_view(view)}, {"op": "flush"}]
         cases.append({"w0": w, "h0": h, "history": hist, "used": used, "ops": ops})
+    # lines printed on the main screen with a frame pending, then the alt screen entered before the next flush: they are
+    # written out before the switch (F20) and are above the view after the return to the main screen
+    for w, h in ((10, 4), (6, 3), (12, 6), (4, 2)):
+        for plen in (1, w - 1, w, w + 1, 2 * w + 1):
+            for nview in (1, h):
+                view = [R.rand_line(rnd, w) for _ in range(nview)]
+                view2 = R.mutate_view(rnd, view, w, h)
+                ops = [{"op": "resize", "w": w, "h": h}, {"op": "write", "s": R.join_view(view)}, {"op": "flush"},
+                       {"op": "print", "s": [97 + (i % 26) for i in range(plen)]}, {"op": "write", "s": R.join_view(view2)},
+                       {"op": "enteralt"}, {"op": "write", "s": R.join_view(view2)}, {"op": "flush"},
+                       {"op": "print", "s": [88, 88]},                      # printed in the alt screen: discarded
+                       {"op": "exitalt"}, {"op": "write", "s": R.join_view(view)}, {"op": "flush"}]
+                cases.append({"w0": w, "h0": h, "history": [[46] * w], "used": min(1, h - 1), "ops": ops})
     # every printed width class over full-screen views at every initial cursor row
     for w, h in ((10, 3), (4, 4)):
         for used in range(0, h):
@@ -131,8 +144,8 @@ def program_family(res, tier, rnd):
         res.violation("C14:program-print", what, {"scenario_meta": m})
     res.coverage["program_family"] = len(scs)
     # a line printed on the main screen, then the alt screen entered before the next frame, then the program ends while
-    # still in the alt screen (finding F20: the line is never written - it waits in the renderer's queue, which is only
-    # written out while the main screen is active, and shutdown leaves the alt screen after the last flush)
+    # still in the alt screen (finding F20, repaired: the line used to wait in the renderer's queue, which is only written
+    # out while the main screen is active, and shutdown leaves the alt screen after the last flush)
     scs3, metas3 = [], []
     for fps, then in ((1, "quit"), (1, "update-quit"), (2, "quit")):
         t = "line printed before the alt screen (fps %d, %s)" % (fps, then)
@@ -152,6 +165,8 @@ def program_family(res, tier, rnd):
         if n != 1:
             lost.append((m, "Println(%r) while the main screen was active, EnterAltScreen before the next frame, then the program ended: the line appears %d times in the output" % (m["text"], n)))
     res.coverage["print_then_altscreen_then_exit"] = metas3
+    res.oblige("Spec on real Programs: a line printed on the main screen survives EnterAltScreen before the next frame and the program ending in the alt screen (%d programs)" % len(scs3),
+               not lost, [w for _, w in lost[:2]])
     for m, what in lost[:1]:
         res.violation("C14:print-then-altscreen-then-exit", what, {"scenario_meta": m})
 
